@@ -4,3 +4,4 @@ import DnsModel.Labels
 import DnsModel.Msg
 import DnsModel.Compress
 import DnsModel.Truncate
+import DnsModel.Dedup
